@@ -383,3 +383,100 @@ Proof.
     + intros k Hk Hv. rewrite <- S3 in Hk. apply in_map_iff in Hk as ([k' u] & E & Hin). cbn [fst] in E. subst k'.
       unfold blk at 1. rewrite (RC k u Hin Hv). cbn [fst]. rewrite <- (getb_in k u (bl_blocks b) ND Hin). apply Hget; auto.
 Qed.
+
+
+(* what a file written from a savable agent in its shared state provides (every registry) *)
+Lemma save_visible_facts s a : savable a = true -> bounded s (agent_locs a) -> share_saved a ->
+  let r := save s a in
+  blob_ok2 (snd r) /\ share_compat (a_reg a) (bl_blocks (snd r)) /\
+  map fst (bl_blocks (snd r)) = map fst (a_blocks a) /\
+  (forall l, In l (locs_of (bl_blocks (snd r))) -> s_next s <= l < s_next (fst r)) /\
+  (forall k, is_hidden k = false -> map (rd (fst r)) (getb k (bl_blocks (snd r))) = map (rd s) (blk a k)) /\
+  (bl_index (snd r) = a_index a /\ bl_mut (snd r) = a_mut a /\ bl_arch (snd r) = a_arch a /\
+   bl_opts (snd r) = opt_view a /\ bl_hps (snd r) = a_hps a /\ bl_reg (snd r) = a_reg a).
+Proof.
+  intros SV B SS. cbn zeta.
+  destruct (save_spec_lemma s a) as (S1 & S2 & S3 & S4 & S5 & FF).
+  specialize (S5 B).
+  destruct (save s a) as [s1 b]. cbn [fst snd] in *.
+  unfold savable in SV. apply andb_true_iff in SV as [SV KC]. apply andb_true_iff in SV as [KN LN].
+  assert (Hget : forall k, is_hidden k = false -> map (rd s1) (getb k (bl_blocks b)) = map (rd s) (blk a k)).
+  { intros k Hv. unfold blk. rewrite <- (getb_mask_visible k Hv (a_blocks a)). apply contents_getb. exact S5. }
+  split; [|split; [|split; [|split; [|split]]]]; auto.
+  - split; [rewrite S3; exact KN|]. intros kv Hkv.
+    assert (Hk : In (fst kv) (map fst (a_blocks a))) by (rewrite <- S3; apply in_map; auto).
+    apply in_map_iff in Hk as (kv' & E & Hin'). unfold known_cls in KC. rewrite forallb_forall in KC. rewrite <- E. apply KC; auto.
+  - intros o Ho. pose proof (Hget (o, cEnc) (enc_visible o)) as H. rewrite (SS o Ho) in H. cbn [map] in H.
+    destruct (getb (o, cEnc) (bl_blocks b)); auto. discriminate.
+  - intros l Hl. rewrite S1 in Hl. apply in_nseq in Hl. lia.
+Qed.
+
+(* load_checkpoint into ANY agent t of the same algorithm (same block keys, same registry), possibly later (crash point),
+   every registry: everything that is not hidden comes back *)
+Theorem load_checkpoint_save_visible_lemma s a s' t :
+  savable a = true -> bounded s (agent_locs a) -> share_saved a ->
+  NoDup (agent_locs t) -> bounded s' (agent_locs t) ->
+  map fst (a_blocks t) = map fst (a_blocks a) -> a_reg t = a_reg a ->
+  s_next (fst (save s a)) <= s_next s' ->
+  (forall l, In l (locs_of (bl_blocks (snd (save s a)))) -> rd s' l = rd (fst (save s a)) l /\ ~ In l (agent_locs t)) ->
+  snd (load_checkpoint (snd (save s a)) (s', t)) = true ->
+  let r := fst (load_checkpoint (snd (save s a)) (s', t)) in
+  (a_index (snd r) = a_index a /\ a_mut (snd r) = a_mut a /\ a_arch (snd r) = a_arch a /\ opt_view (snd r) = opt_view a /\
+   a_hps (snd r) = a_hps a /\ a_reg (snd r) = a_reg a) /\
+  map fst (a_blocks (snd r)) = map fst (a_blocks a) /\
+  (forall k, In k (map fst (a_blocks a)) -> is_hidden k = false ->
+     map (rd (fst r)) (blk (snd r) k) = map (rd s) (blk a k)).
+Proof.
+  intros SV B SS NDt Bt KEt RGt HN HR OKc. cbn zeta.
+  destruct (save_visible_facts s a SV B SS) as (BO & SC & KE & BL & Hget & F1 & F2 & F3 & F4 & F5 & F6). cbn zeta in *.
+  set (b := snd (save s a)) in *. set (s1 := fst (save s a)) in *.
+  assert (ND : NoDup (map fst (bl_blocks b))) by (apply keys_nodupb_NoDup; apply BO).
+  unfold load_checkpoint in *.
+  destruct (reg_eqb (bl_reg b) (a_reg (snd (restore_nets_opts b (s', t))))); cbn [fst snd] in *; [|discriminate].
+  change (restore_attrs b (restore_nets_opts b (s', t))) with (restore b (s', t)).
+  destruct (restore_visible_lemma b (s', t)) as (RF & RK & RC); auto.
+  - split; auto.
+  - intros l Hl. cbn [fst snd]. split; [specialize (BL l Hl); lia|apply (HR l Hl)].
+  - cbn [snd]. rewrite KEt, KE. reflexivity.
+  - cbn [snd]. rewrite RGt. exact SC.
+  - cbn zeta in *. split; [|split].
+    + rewrite <- F1, <- F2, <- F3, <- F4, <- F5, <- F6. exact RF.
+    + rewrite RK. exact KE.
+    + intros k Hk Hv. rewrite <- KE in Hk. apply in_map_iff in Hk as ([k' u] & E & Hin). cbn [fst] in E. subst k'.
+      unfold blk at 1. rewrite (RC k u Hin Hv). cbn [fst]. rewrite <- (getb_in k u (bl_blocks b) ND Hin).
+      rewrite <- (Hget k Hv). apply map_ext_in. intros l Hl. apply HR.
+      unfold locs_of. apply in_concat. exists (getb k (bl_blocks b)). split; auto.
+      rewrite (getb_in k u (bl_blocks b) ND Hin). apply (in_map snd _ _ Hin).
+Qed.
+
+(* Algo.load in any later store in which the file's cells are intact (crash point), every registry *)
+Theorem load_later_visible_lemma s a s' :
+  savable a = true -> bounded s (agent_locs a) -> share_saved a ->
+  s_next (fst (save s a)) <= s_next s' ->
+  (forall l, In l (locs_of (bl_blocks (snd (save s a)))) -> rd s' l = rd (fst (save s a)) l) ->
+  let r := load s' (snd (save s a)) in
+  (a_index (snd r) = a_index a /\ a_mut (snd r) = a_mut a /\ a_arch (snd r) = a_arch a /\ opt_view (snd r) = opt_view a /\
+   a_hps (snd r) = a_hps a /\ a_reg (snd r) = a_reg a) /\
+  map fst (a_blocks (snd r)) = map fst (a_blocks a) /\
+  (forall k, In k (map fst (a_blocks a)) -> is_hidden k = false ->
+     map (rd (fst r)) (blk (snd r) k) = map (rd s) (blk a k)).
+Proof.
+  intros SV B SS HN HR. cbn zeta.
+  destruct (save_visible_facts s a SV B SS) as (BO & SC & KE & BL & Hget & F1 & F2 & F3 & F4 & F5 & F6). cbn zeta in *.
+  set (b := snd (save s a)) in *. set (s1 := fst (save s a)) in *.
+  assert (ND : NoDup (map fst (bl_blocks b))) by (apply keys_nodupb_NoDup; apply BO).
+  unfold load.
+  destruct (restore_visible_lemma b (s', skeleton b)) as (RF & RK & RC); auto.
+  - split; cbn [fst snd]; rewrite skeleton_no_locs; [constructor|apply Forall_nil].
+  - intros l Hl. cbn [fst snd]. rewrite skeleton_no_locs. split; [|intros []]. specialize (BL l Hl). lia.
+  - cbn [snd skeleton a_blocks]. rewrite map_map. reflexivity.
+  - cbn [snd skeleton a_reg]. rewrite F6. exact SC.
+  - cbn zeta in *. split; [|split].
+    + rewrite <- F1, <- F2, <- F3, <- F4, <- F5, <- F6. exact RF.
+    + rewrite RK. exact KE.
+    + intros k Hk Hv. rewrite <- KE in Hk. apply in_map_iff in Hk as ([k' u] & E & Hin). cbn [fst] in E. subst k'.
+      unfold blk at 1. rewrite (RC k u Hin Hv). cbn [fst]. rewrite <- (getb_in k u (bl_blocks b) ND Hin).
+      rewrite <- (Hget k Hv). apply map_ext_in. intros l Hl. apply HR.
+      unfold locs_of. apply in_concat. exists (getb k (bl_blocks b)). split; auto.
+      rewrite (getb_in k u (bl_blocks b) ND Hin). apply (in_map snd _ _ Hin).
+Qed.
